@@ -41,7 +41,7 @@ pub const VALS: [(K, &str); 12] = [
     (K::Obj, "{}"),
     (K::UFn, "uf"),
 ];
-pub const VALS_ALL: [(K, &str); 13] = [
+pub const VALS_ALL: [(K, &str); 25] = [
     (K::Null, "null"),
     (K::Bool, "true"),
     (K::Bool, "false"),
@@ -55,7 +55,21 @@ pub const VALS_ALL: [(K, &str); 13] = [
     (K::Obj, "{}"),
     (K::UFn, "uf"),
     (K::BFn, "print"),
+    // the thorough tier adds a second representative of every kind
+    (K::Int, "-1"),
+    (K::Int, "9223372036854775807"),
+    (K::Str, "\"é€\""),
+    (K::Str, "\"1\""),
+    (K::List, "[[4], \"s\"]"),
+    (K::List, "[uf]"),
+    (K::Obj, "{\"a\": [5], \"b\": uf}"),
+    (K::Obj, "{\"m\": fn () { return 1; }}"),
+    (K::UFn, "fn (p) { return p; }"),
+    (K::UFn, "ob.m"),
+    (K::BFn, "\"s\"->len"),
+    (K::BFn, "[1]->type"),
 ];
+const N_QUICK_VALS: usize = 13;
 
 impl K {
     /// a literal / name denoting a value of the kind
@@ -104,7 +118,7 @@ pub fn accepts(op: &str, l: K, r: K) -> bool {
     }
 }
 
-const PRELUDE: &str = "fn uf(..r) { return 1; }\n";
+const PRELUDE: &str = "fn uf(..r) { return 1; }\nob := {\"m\": fn (..r) { return 2; }}\n";
 
 struct Ctxt {
     name: &'static str,
@@ -196,7 +210,7 @@ impl Check for C16 {
 
     fn run(&self, ctx: &mut Ctx) -> Result<(), MachineryError> {
         let mut cases = vec![];
-        let nv = VALS_ALL.len();
+        let nv = ctx.tier.pick(N_QUICK_VALS, VALS_ALL.len());
         // (1) binary operators in expression form + `..`
         for (oi, op) in BINOPS.iter().enumerate() {
             for l in 0..nv {
@@ -254,7 +268,7 @@ impl Check for C16 {
             cases.push(Case::new(src, T_TYPE, format!("type {}", k)));
         }
         let n_cases = cases.len();
-        ctx.rule = "complete matrix over 13 representative values of the 8 kinds (two per data kind, one of them empty/zero/false): 15 binary operators + `..` x 13x13 operands (two spellings), 5 op-assign operators x 4 target forms x 13x13, typed contexts x 13 values, ->type() x 13; every cell is a distinct (operator, operands, form) tuple and non-trivial".to_string();
+        ctx.rule = format!("complete matrix over {n} representative values of the 8 kinds (two per data kind, one of them empty/zero/false; thorough: 25 values incl. negative and maximal ints, multi-byte and digit strings, nested lists, containers holding functions, anonymous, bound and type functions): 15 binary operators + `..` x {n}x{n} operands (two spellings), 5 op-assign operators x 4 target forms x {n}x{n}, {c} typed contexts x {n} values, ->type() x {n}; every cell is a distinct (operator, operands, form) tuple and non-trivial", n = nv, c = CONTEXTS.len());
         ctx.extra.insert(
             "bounds".into(),
             json!({"binary_operators": 15, "kinds": 8, "values": nv, "op_assign_operators": 5, "op_assign_forms": 4,
